@@ -7,23 +7,24 @@ export CARGO_NET_OFFLINE=true
 unset RUSTFLAGS
 OUT=/verif/work/baseline_off.log
 mkdir -p /verif/work
-if [ -f /w/lib/nextest.toml ]; then CFG="--tool-config-file pb:/w/lib/nextest.toml --profile pb"; else CFG=""; fi
-timeout 10000 cargo nextest run --workspace --no-fail-fast $CFG --test-threads 8 --offline >"$OUT" 2>&1
-python3 - "$OUT" <<'PY'
-import json, re, sys
-log = open(sys.argv[1], errors="replace").read()
-log = re.sub(r"\x1b\[[0-9;]*m", "", log)
+rm -f /repo/target/nextest/pb/junit.xml
+if [ -f /w/lib/nextest.toml ]; then
+  timeout 10000 cargo nextest run --workspace --no-fail-fast --tool-config-file pb:/w/lib/nextest.toml --profile pb --test-threads 8 --offline >"$OUT" 2>&1
+  JUNIT=/repo/target/nextest/pb/junit.xml
+else
+  printf '[profile.default.junit]\npath = "junit.xml"\n' > /tmp/nextest-junit.toml
+  timeout 10000 cargo nextest run --workspace --no-fail-fast --config-file /tmp/nextest-junit.toml --test-threads 8 --offline >"$OUT" 2>&1
+  JUNIT=/repo/target/nextest/default/junit.xml
+fi
+python3 - "$JUNIT" <<'PY'
+import json, sys
+import xml.etree.ElementTree as ET
 base = json.load(open("/root/.vp/BASELINE.json"))["stable_pass"]
 passed = set()
-for m in re.finditer(r"^\s*PASS\s+\[[^\]]*\]\s+(?:\(\s*\d+/\d+\)\s+)?(\S+)\s+(\S+)", log, re.M):
-    passed.add(m.group(1) + "::" + m.group(2))
-def norm(t):       # BASELINE: crate::[binary::]test ; nextest: 'crate[::binary] test'
-    return t
-missing = [t for t in base if t not in passed and not any(p.replace("::", "::", 1) == t for p in ())]
-# tolerate the two naming schemes: compare on the test path after the crate name too
-if missing:
-    tails = {p.split("::", 1)[1] if "::" in p else p for p in passed}
-    missing = [t for t in missing if t.split("::", 1)[1] not in tails]
+for tc in ET.parse(sys.argv[1]).getroot().iter("testcase"):
+    if tc.find("failure") is None and tc.find("error") is None:
+        passed.add(f"{tc.get('classname')}::{tc.get('name')}")
+missing = [b for b in base if b not in passed]
 print(f"baseline stable_pass={len(base)} passing_now={len(base)-len(missing)} missing={len(missing)}")
 for m in missing[:40]:
     print("  NOT PASSING:", m)
